@@ -96,7 +96,9 @@ class FieldCollection(FieldBase):
         if copy_fields:
             self._fields = [field.copy() for field in fields]
         else:
-            self._fields = fields  # type: ignore
+            # store a list of our own: the list object of the caller must not become the
+            # member list, or a later `fields.append(...)` would change this collection
+            self._fields = list(fields)
 
         # extract data from individual fields
         fields_data: list[NumericArray] = []
